@@ -854,6 +854,9 @@ func vsrvC16Session(r *verifrt.R, c *verifrt.Case, kind string) {
 func TestVerif_C16(t *testing.T) {
 	r := verifrt.Start(t, "C16")
 	defer r.Finish()
+	// a connection goroutine that spins keeps its bubble from ever becoming idle: the case would
+	// simply never return (see verifrt.CaseCPUBudget; a case takes milliseconds)
+	r.CaseCPUBudget(300, "case-never-finishes:server-goroutine-spins-or-bubble-cannot-settle")
 	r.SetRule("one case = one server connection fed a generated client byte stream in PRNG chunks (with quiescent points, virtual sleeps, and for floods a client that does not read): random bytes without / after a valid preface, random frames (valid 9-byte headers, random type/flags/stream/payload), protocol-valid open-loop sessions, the same sessions damaged by 1-3 of {bit flips, length lie, swap, duplicate, delete, retype, restream, reflag, scramble payload} plus truncation, and frames on the parsers' length edges (padded HEADERS/DATA/PUSH_PROMISE with and without priority octets whose Pad Length is within a few octets of the payload length; fixed-size frames one octet short or long), and 13 kinds of floods (handlers that outlive a reset followed by opens, PING, SETTINGS, HEADERS+RST_STREAM, empty CONTINUATION, empty DATA, WINDOW_UPDATE, zero WINDOW_UPDATE, DATA on closed stream, malformed HEADERS, PRIORITY, unknown type, over-limit opens; 50-25000 frames). non-trivial = the server got past the preface far enough to emit more than its two opening frames or to start a handler; distinct = hash of the input bytes")
 	r.Assume("no-panic = serve-loop panic hook + recovered harness goroutines + child exit status; 'keeps serving or ends the connection' = after the input, all server timers (read from the package constants) and a full read of the server's output: connection closed with the connection goroutine finished, or a probe PING answered (a partial trailing frame is first completed with zero bytes); bounds are sampled on the serve goroutine through serveMsgCh at quiescent points")
 
